@@ -155,6 +155,28 @@ func c05RelayGoroutines() (stacks []string, inPipe, proxyWaits bool) {
 	return
 }
 
+// c05RelayCensus counts, in one consistent snapshot of all goroutines, the halfPipe goroutines proper
+// (the function itself is on the stack), the detached closers (only a closure of halfPipe is), and
+// tells whether Proxy is blocked in WaitGroup.Wait.
+func c05RelayCensus() (pipes, closers int, proxyWaits bool) {
+	buf := make([]byte, 1<<20)
+	buf = buf[:runtime.Stack(buf, true)]
+	for _, g := range strings.Split(string(buf), "\n\n") {
+		if strings.Contains(g, "c05RelayCensus") {
+			continue
+		}
+		switch {
+		case strings.Contains(g, "station/lib.halfPipe("):
+			pipes++
+		case strings.Contains(g, "station/lib.halfPipe.func"):
+			closers++
+		case strings.Contains(g, "station/lib.Proxy(") && strings.Contains(g, "WaitGroup).Wait"):
+			proxyWaits = true
+		}
+	}
+	return
+}
+
 func c05Has(evs []c05Ev, f func(c05Ev) bool) bool {
 	for _, e := range evs {
 		if f(e) {
@@ -521,6 +543,46 @@ func c05RunPipes(c c05Case) (out c05Out) {
 	go run(c05Down, c05View{covert, c05Down}, c05View{client, c05Down}, "Down C0DE000000000001")
 
 	returned := w.waitDone()
+	w.mu.Lock()
+	ab, zombies := w.abort, w.zombies
+	w.mu.Unlock()
+	if ab != nil {
+		// a direction kept calling after a failure; the harness closed the connections (counted, not timed)
+		if zombies == 0 {
+			c05WaitGoroutines(base, 10*time.Second)
+		}
+		out.classes, out.nontriv = c05Classes(c, w.events())
+		out.key, out.msg = ab.key, ab.msg
+		if zombies > 0 {
+			out.msg += fmt.Sprintf(" [%d goroutine(s) went on even with every call failing and were parked by the harness]", zombies)
+		}
+		return
+	}
+	if !returned {
+		// WALL-CLOCK WATCHDOG (c05WaitLimit, generous: a case needs milliseconds). It has released every
+		// wait of the harness; if the directions now finish, they were only held by the harness.
+		for t0 := time.Now(); time.Since(t0) < 5*time.Second; time.Sleep(10 * time.Millisecond) {
+			w.mu.Lock()
+			fin := w.st[0] == c05StDone && w.st[1] == c05StDone
+			w.mu.Unlock()
+			if fin {
+				break
+			}
+		}
+		w.mu.Lock()
+		fin := w.st[0] == c05StDone && w.st[1] == c05StDone
+		w.mu.Unlock()
+		gs, inPipe, _ := c05RelayGoroutines()
+		out.classes, out.nontriv = c05Classes(c, w.events())
+		if fin || !inPipe {
+			return c05Out{key: "harness", msg: fmt.Sprintf("a wait of the scripted connections hit the %v limit; relay goroutines: %v", c05WaitLimit, gs), classes: out.classes}
+		}
+		w.mu.Lock()
+		w.abortCase("noreturn:watchdog", "")
+		w.mu.Unlock()
+		out.key, out.msg = "noreturn:watchdog", fmt.Sprintf("wall-clock watchdog: %v after the start a halfPipe has still not returned although no wait of the scripted connections holds it any more (the case needs milliseconds); goroutines inside the relay: %v", c05WaitLimit, gs)
+		return
+	}
 	// the source side is closed asynchronously (`go closeConn(src)`): poll up to 5 s for those calls
 	var evs []c05Ev
 	for t0, i := time.Now(), 0; ; i++ {
